@@ -30,7 +30,7 @@ from vlib import symx, compose as C
 from vlib.harness import Unit, pmap
 from vlib.symx import Sym, term
 
-from sasmodels import core, details
+from sasmodels import core, details, direct_model
 
 Q1 = [np.array([0.0125, 0.125])]
 Q2 = [np.array([0.0125, 0.125]), np.array([0.03125, -0.0625])]
@@ -43,6 +43,8 @@ BASIS = ["sphere", "cylinder", "core_multi_shell", "power_law", "sphere@hardsphe
          "cylinder@hayter_msa", "core_shell_sphere"]
 
 FUNCS = ["sasmodels.core.load_model_info (expressions with +, *, @)",
+         "sasmodels.direct_model.get_mesh with the kernel's dim (which dispersities are active; concrete)",
+         "sasmodels.mixture.MixtureKernel.dim / ProductKernel.dim",
          "sasmodels.mixture.make_mixture_info", "sasmodels.core.build_model",
          "sasmodels.mixture.MixtureModel.make_kernel", "sasmodels.mixture.MixtureKernel.__init__",
          "sasmodels.mixture.MixtureKernel.Iq", "sasmodels.mixture._MixtureParts.__next__",
@@ -173,9 +175,102 @@ def _arr(x):
     return [term(v) for v in np.asarray(x, dtype=object).ravel()]
 
 
+def activation(info, dim_attr):
+    """Which parameters the REAL direct_model.get_mesh gives a distribution when
+    every polydisperse-capable parameter asks for one, for a kernel whose
+    ``dim`` attribute is *dim_attr* (call_kernel passes ``calculator.dim``)."""
+    pars = {}
+    for p in info.parameters.call_parameters:
+        if p.polydisperse:
+            pars[p.name + "_pd"] = 0.125
+            pars[p.name + "_pd_n"] = 3
+    mesh = direct_model.get_mesh(info, pars, dim=dim_attr)
+    return {p.name: len(m[1]) > 1 or not p.polydisperse
+            for p, m in zip(info.parameters.call_parameters, mesh)}, pars
+
+
+def check_activation(u, expr, info, parts, lay, kern, pks, dim, seen):
+    """call_kernel builds the mesh with the kernel's ``dim``: the mixture must
+    activate the dispersity of a component's parameter exactly when the
+    component evaluated alone does (for 1-D q the orientation/magnetic
+    parameters are left out: the 1-D kernels do not read them)."""
+    name = "dispersity-activation"
+    if name in seen:
+        return
+    u.r["obligations"] += 1
+    act, _p = activation(info, kern.dim)
+    diff = []
+    part_strs = split_expr(expr)[1]
+    for ps, pk, (_s, _pf, idx) in zip(part_strs, pks, lay):
+        # the component alone = a freshly loaded info (make_mixture_info renames
+        # the parameters of nested parts in place)
+        part = core.load_model_info(ps)
+        act_k, _p = activation(part, pk.dim)
+        for j, p in enumerate(part.parameters.call_parameters):
+            if j < 2 or idx[j] is None or not p.polydisperse:
+                continue
+            if dim == "1d" and p.type in ("orientation", "magnetic"):
+                continue
+            if act[idx[j]] != act_k[p.name]:
+                diff.append((idx[j], p.type))
+    if not diff:
+        u.r["discharged"] += 1
+        return
+    pars = {}
+    for cn, typ in diff:
+        pars[cn + "_pd"] = 15.0 if typ == "orientation" else 0.125
+        pars[cn + "_pd_n"] = 5
+    bad, detail = numeric_named(expr, dim, pars)
+    seen[name] = [1, None]
+    u.r["cex"].append({
+        "obligation": name, "reproduced": bool(bad), "key": "C08/dispersity-activation",
+        "what": "%s (%s): mixture kernel dim=%r, components dim=%s: dispersity of %s is active for the "
+                "component alone but not in the mixture (or vice versa); real call_kernel: violated %s; %s"
+                % (expr, dim, kern.dim, [pk.dim for pk in pks], [d[0] for d in diff], sorted(bad),
+                   {k: v for k, v in detail.items() if k != "I(parts alone)"}),
+        "inputs": {"expr": expr, "dim": dim, "pars": pars, "oracle": "named"}, "detail": detail})
+
+
+def numeric_named(expr, dim, pars):
+    """Real direct_model.call_kernel (get_mesh with the kernel's dim) on the
+    mixture and on every component alone, named parameters."""
+    qv = Q1 if dim == "1d" else Q2
+    op, part_strs = split_expr(expr)
+    info = core.load_model_info(expr)
+    lay, _bad = part_layout(info)
+    try:
+        kern = C.real_model(expr).make_kernel(qv)
+        full = dict(pars)
+        total = np.array(direct_model.call_kernel(kern, full), dtype=float)
+        Is = []
+        for part, ps, (sname, _pf, idx) in zip(info.composition[1], part_strs, lay):
+            pk = C.real_model(ps).make_kernel(qv)
+            pk_pars = {"scale": 1.0, "background": 0.0}
+            for j, p in enumerate(pk.info.parameters.call_parameters):
+                if j >= 2 and idx[j] is not None:
+                    for suffix in ("", "_pd", "_pd_n", "_pd_type", "_pd_nsigma"):
+                        if idx[j] + suffix in full:
+                            pk_pars[p.name + suffix] = full[idx[j] + suffix]
+            Is.append(np.array(direct_model.call_kernel(pk, pk_pars), dtype=float))
+    except Exception as e:
+        return {"exception"}, {"exception": repr(e)}
+    defaults = {p.name: p.default for p in info.parameters.call_parameters}
+    val = lambda n: full.get(n, defaults[n])
+    if op == "+":
+        acc = sum(val(l[0]) * Ik for l, Ik in zip(lay, Is))
+    else:
+        acc = np.prod(np.array(Is), axis=0)
+    ref = val("scale") * acc + val("background")
+    detail = {"I(mixture)": total.tolist(), "I(reference)": np.asarray(ref).tolist(),
+              "I(parts alone)": [x.tolist() for x in Is]}
+    return (set() if C.close(total, ref) else {"intensity"}), detail
+
+
 def run_sub(u, expr, info, sub, seen, validate, light=False):
     dim, which, mag = sub
     name = "%s/%s/pd=%s%s" % (expr, dim, which, "/magnetic" if mag else "")
+    if C.unit_failed(u):
+        return
     op, part_strs = split_expr(expr)
     parts = info.composition[1]
     qv = Q1 if dim == "1d" else Q2
@@ -218,6 +313,10 @@ def run_sub(u, expr, info, sub, seen, validate, light=False):
             u.error("%s: cannot relabel swapped expression %s (%s)" % (name, expr2, bad2))
             swapped = False
 
+    check_activation(u, expr, info, parts, lay, kern, pks, dim, seen)
+    if C.unit_failed(u):
+        return
+
     # dispersed parameters: one per component, alternating lengths
     lengths = {}
     for k, (part, (_s, prefix, idx)) in enumerate(zip(parts, lay)):
@@ -232,7 +331,16 @@ def run_sub(u, expr, info, sub, seen, validate, light=False):
             m0 = [cn for cn in idx if cn is not None and cn.endswith("_M0")]
             if m0 and len(m0_sym) < (1 if light else 2):
                 m0_sym.add(m0[0])
-    mesh, by = C.sym_mesh(info, lengths, {}, m0_sym)
+    # magnetisation angles are symbolic for the SLDs whose amplitude is symbolic;
+    # the switched-off SLDs (M0 = 0) keep their default angles (keeps the number
+    # of element-wise forks of `values != 0` tests bounded)
+    fixed = {}
+    defaults = {p.name: p.default for p in info.parameters.call_parameters}
+    for n in defaults:
+        if n.endswith("_M0") and n not in m0_sym:
+            for suffix in ("_mtheta", "_mphi"):
+                fixed[n[:-3] + suffix] = defaults[n[:-3] + suffix]
+    mesh, by = C.sym_mesh(info, lengths, fixed, m0_sym)
     cutoff = symx.real("cutoff")
 
     # assumptions on the leaves
@@ -270,7 +378,7 @@ def run_sub(u, expr, info, sub, seen, validate, light=False):
         return {"out": out, "calls": calls, "I": I, "refcalls": refcalls, "val": val, "out2": out2,
                 "is_mag": is_mag, "calls2": list(rec2)}
 
-    ex = symx.Explorer(timeout_ms=20000, max_paths=6000)
+    ex = symx.Explorer(timeout_ms=20000, max_paths=600)
     paths = ex.explore(fn, A)
     u.absorb(ex, paths)
     if not paths:
@@ -282,6 +390,8 @@ def run_sub(u, expr, info, sub, seen, validate, light=False):
               "first_path_condition": [str(c)[:80] for c in paths[0].pc][:6]})
 
     for pi, p in enumerate(paths):
+        if C.unit_failed(u):
+            break
         if p.cut:
             continue
         H = p.constraints() + circle
@@ -536,6 +646,12 @@ def replay(cex):
             return 1
         print("real core.load_model_info(%r) succeeds" % i["expr"])
         return 0
+    if i.get("oracle") == "named":
+        bad, detail = numeric_named(i["expr"], i["dim"], i["pars"])
+        print("real call_kernel on %s (%s) with %s: violated %s" % (i["expr"], i["dim"], i["pars"], sorted(bad)))
+        for k, v in detail.items():
+            print("  %s = %s" % (k, v))
+        return 1 if bad else 0
     if i.get("oracle") == "table":
         info = core.load_model_info(i["expr"])
         bad = part_layout(info)[1]
@@ -569,7 +685,7 @@ def _validate(u, expr, info, sub, by, paths, name):
     prefs = C.default_prefs(info, by)
     env = {c.decl().name(): float(v) for c, v in prefs}
     env["cutoff"] = 0.0
-    g = lambda x: env[x.t.decl().name()] if isinstance(x, Sym) else float(x)
+    g = lambda x: env[x.t.decl().name()] if C.is_var(x) else float(x)
     conc = {n: [g(v), [g(x) for x in d], [g(x) for x in w]] for n, (v, d, w) in by.items()}
     qv = Q1 if dim == "1d" else Q2
     C.remove_shims()
@@ -651,7 +767,10 @@ def expressions(quick, seed, light=None):
                   "sphere+cylinder+power_law+core_shell_sphere",
                   "sphere*cylinder*guinier*lamellar",
                   "core_multi_shell*sphere@hardsphere+vesicle",
-                  "sphere+porod", "porod*sphere", "sphere+guinier*porod"]
+                  "sphere+porod", "porod*sphere", "sphere+guinier*porod",
+                  # every component a P@S product (no part carries a dimension), oriented
+                  "cylinder@hardsphere+ellipsoid@hardsphere", "ellipsoid@hayter_msa*cylinder@hardsphere",
+                  "cylinder@hardsphere*sphere@hardsphere+ellipsoid@hardsphere"]
     else:
         exprs = expressions(True, seed)
         allm = list(core.list_models())
@@ -704,7 +823,8 @@ def run(chk):
         "expressions": "quick: 2-part over 5 basis models (both orders, both operators) + nested/3/4-part; "
                        "thorough: all 2-part over all builtin models + 300 sampled 3/4-part/nested (seed %d)" % chk.seed,
         "q points": 2, "distribution lengths": "2 or 3, one dispersed parameter per component",
-        "magnetic amplitudes": "first SLD of the first two components symbolic in the 2-D sub-configuration",
+        "magnetic amplitudes": "first SLD of the first two components symbolic (with its angles) in the 2-D "
+                               "sub-configuration; the other SLDs have M0 = 0 and default angles; spin state symbolic",
         "solver timeout": "60 s per obligation, 20 s per fork"}
     chk.outside = [
         "leaf kernels (their accumulators are symbols)", "rounding",
